@@ -29,7 +29,10 @@ def efun(x):
     Returns:
         float: x/[exp(x)-1]
     """
-    return x / (save_exp(x) - 1.0)
+    is_small = jnp.abs(x) < 1e-6
+    # Evaluate the quotient away from zero only (keeps values and gradients finite).
+    x_safe = jnp.where(is_small, 1.0, x)
+    return jnp.where(is_small, 1.0 - x / 2.0, x_safe / (save_exp(x_safe) - 1.0))
 
 
 class Leak(Channel):
